@@ -448,6 +448,18 @@ func (h *Handler) HandleGetDirSize(ctx *Context, path string) (int64, error) {
 	log := slog.With(slog.String("path", path))
 	log.DebugContext(ctx, "Get directory size")
 
+	// only existing directory has a size to report
+	root, err := h.Fs.Stat(path)
+	if err != nil {
+		log.WarnContext(ctx, "Stat failed", logutil.ErrorAttr(err))
+		return 0, err
+	}
+
+	if !root.IsDir() {
+		log.WarnContext(ctx, "Get directory size failed: not a directory")
+		return 0, fmt.Errorf("%s is not a directory", path)
+	}
+
 	var size int64
 	// detach afero.Lstater interface to resolve symlinks in afero.Walk.
 	_ = afero.Walk(&fsOnly{h.Fs}, path, func(path string, info fs.FileInfo, err error) error {
